@@ -172,6 +172,42 @@ func (h *Handle) SliceFieldObj(base ssa.Value, field int) (int, bool) {
 	return 0, false
 }
 
+// FieldPath is Field for a nested field, path like ".4.0".
+func (h *Handle) FieldPath(base ssa.Value, path, name string, unsigned bool) Lin {
+	key := cellKey{h.Ctx, base, path}
+	if cv, ok := h.S.cells[key]; ok {
+		if l, ok := asLin(cv); ok {
+			return l
+		}
+	}
+	t := termFor(fmt.Sprintf("cell|%d|%p|%s", h.Ctx, base, path), "cell"+name)
+	if unsigned {
+		h.S.addLE(tvar(t).scale(-1))
+	}
+	h.S.cells[key] = AInt{tvar(t)}
+	return tvar(t)
+}
+
+// HavocInt replaces the content of an integer cell (path like ".3", or
+// ".0#len" for the entry count of a map field) by an arbitrary non-negative
+// value and returns it.
+func (h *Handle) HavocInt(base ssa.Value, path, name string) Lin {
+	t := newTerm("havoc" + name)
+	nonneg[t] = true
+	h.S.addLE(tvar(t).scale(-1))
+	h.S.cells[cellKey{h.Ctx, base, path}] = AInt{tvar(t)}
+	return tvar(t)
+}
+
+// IntCell returns the current content of an integer cell, if it exists.
+func (h *Handle) IntCell(base ssa.Value, path string) (Lin, bool) {
+	cv, ok := h.S.cells[cellKey{h.Ctx, base, path}]
+	if !ok {
+		return Lin{}, false
+	}
+	return asLin(cv)
+}
+
 // Cell returns the integer content of a field of a local object (alloc) given
 // the path of field indices, e.g. ".3.1".
 func (h *Handle) Cell(alloc ssa.Value, path string) (Lin, bool) {
